@@ -260,7 +260,15 @@ def run_lines(cmd, cases, timeout=1800, env=None, chunk=None):
     return results
 
 
-def run_json(cmd, reqs, timeout=1800, env=None):
+def run_json(cmd, reqs, timeout=1800, env=None, chunk=400):
+    """chunked front-end of run_json_once (a crash only costs the rest of one chunk)"""
+    out = []
+    for i in range(0, len(reqs), chunk):
+        out.extend(run_json_once(cmd, reqs[i:i + chunk], timeout=timeout, env=env))
+    return out
+
+
+def run_json_once(cmd, reqs, timeout=1800, env=None):
     """JSON-lines protocol (harness bin `prog`): one request object per line, one response per line.
     A request on which the process dies or hangs (the bin prints {"hang":true} and exits) gets
     {"crash": rc} / {"hang": true}; the remaining requests are re-run in a fresh process."""
